@@ -293,7 +293,7 @@ Definition dispatch_seg (E : denv) (s : seg) : D unit :=
     dod_ (if negb (ostr_eqb (ms_file (ds_sel st)) new) then dod _ <- switch_map E new; d_ret tt else d_ret tt);
     dod st <- d_get;
     match ms_cur (ds_sel st) with
-    | None => d_raise AttributeError                         (* cur_map is None: None.getnodebypath *)
+    | None => d_raise EngineError                            (* fix: cur_map is None -> "Map not found" *)
     | Some mp =>
         dod r <- d_lift (getnode mp "/ISA_LOOP/GS_LOOP/GS");
         dod_ set_node mp r;
